@@ -16,6 +16,8 @@ import (
 	"encoding/json"
 	"hash/fnv"
 	"os"
+	"strconv"
+	"strings"
 	"sync"
 
 	"github.com/junegunn/fzf/src/tui"
@@ -232,4 +234,30 @@ func verifHead(lines []string, n int) []string {
 		return lines[:n]
 	}
 	return lines
+}
+
+// verifNthString renders a field index expression list the way --nth would accept it ("" = no change requested).
+func verifNthString(nth *[]Range) string {
+	if nth == nil {
+		return ""
+	}
+	if len(*nth) == 0 {
+		return ".."
+	}
+	parts := []string{}
+	for _, r := range *nth {
+		b, e := "", ""
+		if r.begin != rangeEllipsis {
+			b = strconv.Itoa(r.begin)
+		}
+		if r.end != rangeEllipsis {
+			e = strconv.Itoa(r.end)
+		}
+		if b == e && b != "" {
+			parts = append(parts, b)
+		} else {
+			parts = append(parts, b+".."+e)
+		}
+	}
+	return strings.Join(parts, ",")
 }
